@@ -37,7 +37,8 @@ func TestMain(m *testing.M) {
 			"spz-decode: streams from the harness's reference encoder (16-byte header written byte by byte, planar arrays positions/alphas/colours/scales/rotations/SH, gzip at a drawn level): version 1 and 2, " +
 			"fractional bits 0..30, SH degree 0..3, 0..6 points of arbitrary bytes (boundary bytes boosted) or up to 48 points expanded from a drawn seed, any flags byte; decoded values compared with the published dequantisation formulas. " +
 			"spz-half-grid: all 65 536 half-float patterns enumerated (16 streams of 4096). " +
-			"Non-trivial = at least one splat (.splat, PLY) / at least two points, so that strides matter (SPZ); distinct by case JSON.",
+			"Non-trivial = at least one splat (.splat, PLY) / at least two points, so that strides matter (SPZ); distinct by case JSON. " +
+			"Sub-checks large (100..100 000 splats through the three oracles; every case non-trivial) and concurrent-*: every concurrent-* case (2-5 bundled cases run at the same time after each passed alone) is non-trivial.",
 		Assumptions: []string{
 			"splat clouds are identity-indexed point clouds (modeling.NewPointCloud): a splat is a vertex",
 			"positions are finite doubles within the float32 range; log-scales lie in [-80,80] so that exp(scale) is a normal float32; rotation components lie in [-1,1]; FDC and opacity are any finite doubles",
